@@ -1,5 +1,5 @@
 // C07 (scanning), C08 (amount recovery), C09 (key recovery): mirror of coq/Model/OpsScan.v, public API of the crate only:
-//   deserialize::<Transaction>, ViewPair, KeyPair, Transaction::{check_outputs, check_outputs_with},
+//   crate::ops_codec::ds::<Transaction>, ViewPair, KeyPair, Transaction::{check_outputs, check_outputs_with},
 //   TransactionPrefix::{check_outputs, check_outputs_with}, SubKeyChecker::{new, check}, OwnedTxOut getters and recover_key,
 //   KeyRecoverer::{new, recover}, EcdhInfo::open_commitment, PublicKey::from_private_key.
 use crate::{show_hex, unhex};
@@ -288,7 +288,7 @@ pub fn run(op: &str, args: &[&str]) -> Option<String> {
             let b = unhex(h)?;
             let i: u64 = i.parse().ok()?;
             let rvb = unhex(rv)?;
-            let t = match deserialize::<TxOutTarget>(&b) {
+            let t = match crate::ops_codec::ds::<TxOutTarget>(&b) {
                 Ok(t) => t,
                 Err(e) => return Some(crate::err_shown(&e)),
             };
@@ -297,7 +297,7 @@ pub fn run(op: &str, args: &[&str]) -> Option<String> {
         }
         ("txout_key", [h]) => {
             let b = unhex(h)?;
-            Some(match deserialize::<TxOut>(&b) {
+            Some(match crate::ops_codec::ds::<TxOut>(&b) {
                 Ok(o) => match o.get_one_time_key() {
                     Some(k) => format!("OK {}", show_hex(k.as_bytes())),
                     None => "OK -".to_string(),
